@@ -343,11 +343,6 @@ func (w *world) step(ev string) {
 			if w.expired(e) && !e.Handle {
 				delete(w.m, n)
 				changed = true
-				for _, r := range reqs {
-					if r.Name == n {
-						w.fail("C19", "expired-still-polled", "expired secret %q was still requested by the poll", n)
-					}
-				}
 				continue
 			}
 			ver, val, _ := w.svc.Active(n)
